@@ -16,6 +16,7 @@ import (
 
 	"github.com/google/uuid"
 	"github.com/smartcontractkit/wsrpc/internal/message"
+	"google.golang.org/protobuf/encoding/protowire"
 	"google.golang.org/protobuf/proto"
 )
 
@@ -72,6 +73,28 @@ func vGenCallID(r *vRand) (string, string) {
 	return s, kind
 }
 
+// vPctText: free text that travels end to end (handler error texts, tokens, method names).
+// Such text is data: with good probability it contains '%' sequences, which come out
+// mangled ("%!d(MISSING)", "%!f(MISSING)ull", a lost '%') wherever an implementation
+// uses it as a printf format. Never empty, never contains '/'.
+var vPctSamples = []string{"disk 100% full", "%d", "%s%!", "%%", "100%", "%v of %T", "rate 5%, quota 7%d", "%!(EXTRA string=x)", "%",
+	"a%20b%zz", "%[1]d %[2]*.[3]f", "%s", "%x%x%x%x", "50%% done", "%+v", "%!d(MISSING)", "%w", "% d", "%-5s|", "é%é", "%\n"}
+
+func vPctText(r *vRand, base string) string {
+	switch r.Intn(6) {
+	case 0, 1:
+		return base
+	case 2:
+		return vPctSamples[r.Intn(len(vPctSamples))]
+	case 3:
+		return base + " " + vPctSamples[r.Intn(len(vPctSamples))]
+	case 4:
+		return vPctSamples[r.Intn(len(vPctSamples))] + " " + base
+	default:
+		return vPctSamples[r.Intn(len(vPctSamples))] + vPctSamples[r.Intn(len(vPctSamples))]
+	}
+}
+
 func vGenAppPayload(r *vRand) ([]byte, string) {
 	switch r.Intn(9) {
 	case 0:
@@ -79,13 +102,13 @@ func vGenAppPayload(r *vRand) ([]byte, string) {
 	case 1:
 		return []byte{0xff}, "undecodable"
 	case 2:
-		b, _ := proto.Marshal(vAppMsg("t", r.Bytes(r.Intn(20)), "fail:boom "+fmt.Sprint(r.Intn(100))))
+		b, _ := proto.Marshal(vAppMsg("t", r.Bytes(r.Intn(20)), "fail:"+vPctText(r, "boom "+fmt.Sprint(r.Intn(100)))))
 		return b, "fail"
 	case 3:
-		b, _ := proto.Marshal(vAppMsg("t", r.Bytes(r.Intn(20)), "failv:with value"))
+		b, _ := proto.Marshal(vAppMsg("t", r.Bytes(r.Intn(20)), "failv:"+vPctText(r, "with value")))
 		return b, "failv"
 	case 4:
-		b, _ := proto.Marshal(vAppMsg("t", nil, "bare:untyped nil"))
+		b, _ := proto.Marshal(vAppMsg("t", nil, "bare:"+vPctText(r, "untyped nil")))
 		return b, "bare"
 	case 5:
 		b, _ := proto.Marshal(vAppMsg("", nil, "empty"))
@@ -106,9 +129,66 @@ func vFrame(m *message.Message) []byte {
 	return b
 }
 
+// vPrefixValidFrame: a complete, valid request (registered method, version-4 call id,
+// decodable payload) or response (to a pending call when there is one) followed by bytes
+// which make the frame as a whole undecodable. Nothing may be dispatched for it.
+func vPrefixValidFrame(r *vRand, pending []string) ([]byte, string) {
+	var b []byte
+	kind := ""
+	if r.Intn(5) < 3 || (len(pending) == 0 && r.Bool()) {
+		pl, _ := proto.Marshal(vAppMsg(fmt.Sprintf("pv%d", r.Intn(1000)), r.Bytes(r.Intn(12)), ""))
+		b = vFrame(&message.Message{Exchange: &message.Message_Request{Request: &message.Request{Method: vMethods[r.Intn(len(vMethods))], CallId: uuid.NewString(), Payload: pl}}})
+		kind = "req"
+	} else {
+		id := uuid.NewString()
+		kind = "resp-unknown"
+		if len(pending) > 0 {
+			id, kind = pending[r.Intn(len(pending))], "resp-pending"
+		}
+		pl, _ := proto.Marshal(vAppMsg("pv", r.Bytes(r.Intn(12)), ""))
+		e := ""
+		if r.Intn(3) == 0 {
+			e = vPctText(r, "remote failure")
+		}
+		b = vFrame(&message.Message{Exchange: &message.Message_Response{Response: &message.Response{CallId: id, Payload: pl, Error: e}}})
+	}
+	tail, tk := vBadTail(r)
+	return append(b, tail...), "prefix-valid/" + kind + "/" + tk
+}
+
+// vWireWellFormed: protobuf wire-level well-formedness by an independent scanner (protowire),
+// top level only (no schema): false means no decoder of the envelope schema may accept b.
+func vWireWellFormed(b []byte) bool {
+	for len(b) > 0 {
+		num, typ, n := protowire.ConsumeTag(b)
+		if n < 0 || num < 1 {
+			return false
+		}
+		b = b[n:]
+		if typ == protowire.EndGroupType {
+			return false
+		}
+		n = protowire.ConsumeFieldValue(num, typ, b)
+		if n < 0 {
+			return false
+		}
+		b = b[n:]
+	}
+	return true
+}
+
+func vGenFrameFocus(r *vRand, pending []string, lastDelivered string, focus string) ([]byte, string) {
+	if focus == "prefix-valid" && r.Intn(5) < 3 {
+		return vPrefixValidFrame(r, pending)
+	}
+	return vGenFrame(r, pending, lastDelivered)
+}
+
 // one frame of a hostile-or-honest peer
 func vGenFrame(r *vRand, pending []string, lastDelivered string) ([]byte, string) {
-	switch r.Intn(16) {
+	switch r.Intn(19) {
+	case 16, 17, 18:
+		return vPrefixValidFrame(r, pending)
 	case 0, 1, 2, 3:
 		id, k := vGenCallID(r)
 		pl, pk := vGenAppPayload(r)
@@ -127,7 +207,7 @@ func vGenFrame(r *vRand, pending []string, lastDelivered string) ([]byte, string
 			pl, _ := vGenAppPayload(r)
 			e := ""
 			if r.Intn(3) == 0 {
-				e = "remote failure"
+				e = vPctText(r, "remote failure")
 			}
 			return vFrame(&message.Message{Exchange: &message.Message_Response{Response: &message.Response{CallId: id, Payload: pl, Error: e}}}), "resp/pending"
 		}
@@ -178,7 +258,25 @@ func vEffectCoq(handled []vHLog, delivered []*message.Response, reqOf func() *me
 	return "EDrop", fmt.Sprintf("one frame caused %d handler runs and %d deliveries", len(handled), len(delivered))
 }
 
-func vC07Scenario(r *vRand, role string, withSvc bool, nFrames int) {
+// vC07Sentinel is fed after every frame as a barrier: the read loop is one goroutine, so
+// once it has taken the sentinel it has finished with the frame before (and has started
+// whatever that frame starts). It is not a protobuf message (a lone 0xff): it is dropped
+// before anything looks at it.
+var vC07Sentinel = []byte{0xff}
+
+// vGaWithin runs f and reports whether it returned within d.
+func vGaWithin(d time.Duration, f func()) bool {
+	ch := make(chan struct{})
+	go func() { f(); close(ch) }()
+	select {
+	case <-ch:
+		return true
+	case <-time.After(d):
+		return false
+	}
+}
+
+func vC07Scenario(r *vRand, role string, withSvc bool, nFrames int, focus string) {
 	var srv *vSrvEnd
 	var cli *vCliEnd
 	var tr *vFakeTr
@@ -193,6 +291,7 @@ func vC07Scenario(r *vRand, role string, withSvc bool, nFrames int) {
 	time.Sleep(2 * time.Millisecond)
 	base := runtime.NumGoroutine()
 	var waiters []vWaiter
+	var fed []string // the sequence so far, for the reports of the end-of-sequence monitors
 	lastDelivered := ""
 	pendingIDs := func() []string {
 		if srv != nil {
@@ -222,7 +321,8 @@ func vC07Scenario(r *vRand, role string, withSvc bool, nFrames int) {
 			waiters = append(waiters, vWaiter{id, ch, cancel})
 		}
 		before := pendingIDs()
-		frame, class := vGenFrame(r, before, lastDelivered)
+		frame, class := vGenFrameFocus(r, before, lastDelivered, focus)
+		fed = append(fed, class+":"+vHexShort(frame))
 		epCoq := fmt.Sprintf("{| e_role := %s; e_svc := %s; e_pending := %s |}", role, svcCoq, vCoqIDs(before))
 		impl.take()
 		tr.takeWrites()
@@ -230,12 +330,14 @@ func vC07Scenario(r *vRand, role string, withSvc bool, nFrames int) {
 			vEmit(vCase{Class: "frame/" + class, Fail: "wedged", Info: map[string]interface{}{"role": role, "svc": withSvc, "frame_hex": vHex(frame), "parked": vParked()}})
 			return
 		}
+		// the dispatcher is back at its receive once it takes the barrier frame
+		barrier := vFeed(tr, vC07Sentinel)
 		// settle, receiving on behalf of the pending calls
 		var delivered []*message.Response
 		settled := false
 		deadline := time.Now().Add(1500 * time.Millisecond)
 		okc := 0
-		for time.Now().Before(deadline) {
+		for barrier == nil && time.Now().Before(deadline) {
 			for _, w := range waiters {
 				select {
 				case p := <-w.ch:
@@ -284,8 +386,16 @@ func vC07Scenario(r *vRand, role string, withSvc bool, nFrames int) {
 			Coq:  fmt.Sprintf("CFrame %s %s %s %s %s %s", epCoq, vCoqBytes(frame), eff, outcome, vCoqList(ws), vCoqIDs(after)),
 			Sig:  role + fmt.Sprint(withSvc) + "/" + class + "/" + vHexShort(frame) + "/" + fmt.Sprint(len(before)),
 			Info: map[string]interface{}{"role": role, "svc": withSvc, "frame_hex": vHexShort(frame), "outcome": strings.SplitN(strings.Trim(eff, "("), " ", 2)[0], "pending_before": len(before), "pending_after": len(after), "writes": len(writes)}}
+		// a frame which is not well-formed wire data (by the independent scanner), or whose tail
+		// carries a string that is not UTF-8, is no envelope at all: whatever its prefix looks
+		// like, no handler runs, nothing is written, no pending call is completed
 		if odd != "" {
 			c.Fail = "multi-effect"
+		}
+		if (!vWireWellFormed(frame) || strings.HasSuffix(class, "/bad-utf8")) && (len(handled) > 0 || len(writes) > 0 || len(delivered) > 0 || len(after) != len(before)) {
+			c.Fail = "undecodable-frame-dispatched"
+			c.Info.(map[string]interface{})["handlers_run"] = len(handled)
+			c.Info.(map[string]interface{})["calls_completed"] = len(delivered)
 		}
 		if !settled {
 			c.Fail = "blocked"
@@ -322,6 +432,9 @@ func vC07Scenario(r *vRand, role string, withSvc bool, nFrames int) {
 		tr.takeWrites()
 		fr := vFrame(&message.Message{Exchange: &message.Message_Request{Request: &message.Request{Method: "Echo", CallId: id, Payload: pl}}})
 		err := vFeed(tr, fr)
+		if err == nil {
+			err = vFeed(tr, vC07Sentinel)
+		}
 		vSettle(base)
 		h, w := impl.take(), tr.takeWrites()
 		c := vCase{Class: "probe-after-sequence", Sig: "probe/" + role, Info: map[string]interface{}{"role": role, "outcome": fmt.Sprintf("handled=%d writes=%d", len(h), len(w))}}
@@ -330,6 +443,24 @@ func vC07Scenario(r *vRand, role string, withSvc bool, nFrames int) {
 		}
 		vEmit(c)
 	}
+	// and closing it must return: no frame may leave something behind that Close / Stop waits for
+	for _, w := range waiters {
+		w.stop()
+	}
+	closed := false
+	if cli != nil {
+		closed = vGaWithin(4*time.Second, func() { cli.cc.Close() })
+	} else {
+		closed = vGaWithin(4*time.Second, func() { srv.s.Stop() })
+		close(srv.done)
+	}
+	cc := vCase{Class: "close-after-sequence", Sig: "close/" + role + fmt.Sprint(withSvc) + "/" + strings.Join(fed, ","),
+		Info: map[string]interface{}{"role": role, "svc": withSvc, "outcome": fmt.Sprintf("closed=%v", closed), "frames": fed, "barrier_frame_after_each": vHex(vC07Sentinel)}}
+	if !closed {
+		cc.Fail = "close-hangs-after-frames"
+		cc.Info.(map[string]interface{})["parked"] = vParked()
+	}
+	vEmit(cc)
 }
 
 func TestVerifC07Child(t *testing.T) {
@@ -340,10 +471,11 @@ func TestVerifC07Child(t *testing.T) {
 	var seed uint64
 	var role string
 	var svc, n, frames int
-	fmt.Sscanf(spec, "%d %s %d %d %d", &seed, &role, &svc, &n, &frames)
+	focus := ""
+	fmt.Sscanf(spec, "%d %s %d %d %d %s", &seed, &role, &svc, &n, &frames, &focus)
 	r := vNewRand(seed)
 	for i := 0; i < n; i++ {
-		vC07Scenario(r.Fork(), role, svc == 1, frames)
+		vC07Scenario(r.Fork(), role, svc == 1, frames, focus)
 	}
 }
 
@@ -406,4 +538,38 @@ func TestVerifC07(t *testing.T) {
 		}
 	}
 	sort.Strings(crashed)
+}
+
+// TestVerifC16Endpoints (run by the C16 check): the codec's verdict is what the endpoints act
+// on. Frame sequences rich in "valid envelope + malformed rest" frames go to a server and to
+// a client endpoint; per frame the effect is compared with Dispatch.process (nothing happens
+// for a frame the envelope decoder rejects).
+func TestVerifC16Endpoints(t *testing.T) {
+	r := vNewRand(vSeed() + 16)
+	per, frames := 5, 16
+	if vThorough() {
+		per, frames = 40, 24
+	}
+	type res struct {
+		ok        bool
+		out, spec string
+	}
+	ch := make(chan res)
+	specs := []string{}
+	for _, role := range []string{"Srv", "Cli"} {
+		specs = append(specs, fmt.Sprintf("%d %s 1 %d %d prefix-valid", r.U64()%1000000007, role, per, frames))
+	}
+	for _, spec := range specs {
+		go func(spec string) {
+			ok, out := vRunChild(t, "TestVerifC07Child", spec, 120*time.Second)
+			ch <- res{ok, out, spec}
+		}(spec)
+	}
+	for range specs {
+		x := <-ch
+		if !x.ok {
+			vEmit(vCase{Class: "child", Fail: "crash", Sig: "crash/" + x.spec,
+				Info: map[string]interface{}{"spec": x.spec, "panic": vPanicLine(x.out), "replay": "VERIF_CHILD='" + x.spec + "' go test -run TestVerifC07Child"}})
+		}
+	}
 }
